@@ -134,6 +134,11 @@ def pushEntry (k : PStr) (m : KMeta) (ov : Option AVal) (q : Attrs × Nat) : Att
   | some v' => ((k, m, v') :: q.1, q.2)
   | Option.none => q
 
+/-- a dict re-processed by its own class: what `new = cls(); for k, v in d.items(): new[k] = v` holds -/
+def settleAttrs (cls : Nat) : Attrs → Attrs
+  | [] => []
+  | (k, m, v) :: r => (pushEntry k m (coerce cls k m v) (settleAttrs cls r, 0)).1
+
 /-- the attribute loop, of `Tag.__init__` (element.py:1685-1692, into a new `HTML/XMLAttributeDict`) before the repair
     and of `Tag.copy_self` (into a new dict of the original's class) after it:
     `for key, value in attrs.items(): if isinstance(value, list): value = value.__class__(value); new[key] = value`.
@@ -307,6 +312,16 @@ def copySpecL (inh : Option Bool) (next : Nat) : List Node → List Node × Nat
     let a := copySpec inh next k
     let b := copySpecL inh a.2 ks
     (a.1 :: b.1, b.2)
+end
+
+mutual
+/-- the tree with every attribute dict re-processed by its own class (the identity on every tree the public API builds) -/
+def settle : Node → Node
+  | .str i c v => .str i c v
+  | .tag i d ks => .tag i { d with attrs := settleAttrs d.dictCls d.attrs } (settleL ks)
+def settleL : List Node → List Node
+  | [] => []
+  | k :: ks => settle k :: settleL ks
 end
 
 /-! ### what a copy keeps: the tree with identities erased -/
